@@ -128,7 +128,27 @@ func vh_C06_chain_converse() {
 	query := ndString("query")
 	verifAssume(vPlainPath.MatchString(path))
 	verifAssume(vPlainQuery.MatchString(query))
+	// the page the user asked for travels as the request URI, or -- after the sign-in form was
+	// shown -- as the rd field of the POSTed form (body only) or of the query string
+	rd := ""
+	switch ndChoice("carrier", 2) {
+	case 1:
+		rd = path
+		if query != "" {
+			rd = path + "?" + query
+		}
+	}
 	req := vChainReq("r", false, false, "", "", "app.example.com", path, query)
+	if rd != "" {
+		req.Method = "POST"
+		req.URL = &url.URL{Path: "/oauth2/sign_in"}
+		req.Form = nil
+		verifSetPostForm(req, url.Values{"rd": {rd}})
+		got, err := d.GetRedirect(req)
+		verifReach("rd-in-form")
+		verifAssert("C06.converse.rd-of-the-sign-in-form-is-where-the-user-lands", err == nil && got == rd)
+		return
+	}
 	got, err := d.GetRedirect(req)
 	verifAssert("C06.chain.no-error", err == nil)
 	want := path
